@@ -12,7 +12,7 @@ The latitude at exact start instants (a repeated query may show a further prefix
 scheduled there) is what `NotInstant` excludes; the invariant `Inv` nevertheless covers such histories: after *any*
 history the player is at a point of the fresh player's wake-up chain (`reachable_inv`).
 -/
-import Sb.Proofs.LightPlayer
+import Sb.Proofs.LightLatitude
 import Sb.Properties.C09
 
 namespace Sb.C09
@@ -65,6 +65,56 @@ theorem answers_history_free (prog : Bytes) (short : FadesShort prog) (hist : Li
   unfold Player.pyroChannels
   rw [this.2.1]
 
+/-- **C09 with its latitude, for EVERY timestamp**: after any history the player shows a point `k` of the fresh player's
+wake-up chain, the fresh player shows a point `k0 ≤ k`, and every chain step between the two is a command of the running
+program that starts exactly at `t` — "a repeated query may reflect a further prefix of the zero-duration commands
+scheduled at that same instant", and nothing else ever differs -/
+theorem answers_up_to_latitude (prog : Bytes) (short : FadesShort prog) (hist : List (Nat × Nat)) (t f1 f2 : Nat)
+    (p r r0 : Player)
+    (hp : seekAll (Player.fresh prog) hist = .ok p)
+    (hr : p.seek t f1 = .ok r)
+    (hr0 : (Player.fresh prog).seek t f2 = .ok r0) :
+    ∃ k0 k, k0 ≤ k ∧ obs3 r0.exec = view prog k0 t ∧ obs3 r.exec = view prog k t ∧
+      ∀ j, k0 ≤ j → j < k → (chain prog j).next = t ∧ (chain prog j).exec.ended = false := by
+  have ip := reachable_inv prog short hist _ _ (inv_fresh prog) hp
+  obtain ⟨ir, _⟩ := seek_inv prog short p r t f1 ip hr
+  obtain ⟨rr, rc⟩ := seek_reset p r t f1 hr
+  obtain ⟨_, rc0⟩ := seek_reset _ r0 t f2 hr0
+  obtain ⟨k, hk⟩ := at_of_inv prog r ir rr
+  obtain ⟨k0, hk0, hmin⟩ := fresh_least prog short t f2 r0 hr0
+  have hle := hmin r k hk rc
+  refine ⟨k0, k, hle, ?_, ?_, at_between prog r0 r t k0 k hk0 hk rc0 rc hle⟩
+  · rw [hk0.obs, rc0]
+  · rw [hk.obs, rc]
+
+/-- the same for two arbitrary histories: the two answers are two chain points, and only commands that start at `t` lie
+between them -/
+theorem answers_latitude_two_histories (prog : Bytes) (short : FadesShort prog) (h1 h2 : List (Nat × Nat)) (t f1 f2 : Nat)
+    (p1 p2 r1 r2 : Player)
+    (hp1 : seekAll (Player.fresh prog) h1 = .ok p1) (hp2 : seekAll (Player.fresh prog) h2 = .ok p2)
+    (hr1 : p1.seek t f1 = .ok r1) (hr2 : p2.seek t f2 = .ok r2) :
+    ∃ k1 k2, obs3 r1.exec = view prog k1 t ∧ obs3 r2.exec = view prog k2 t ∧
+      ∀ j, min k1 k2 ≤ j → j < max k1 k2 → (chain prog j).next = t ∧ (chain prog j).exec.ended = false := by
+  have i1 := reachable_inv prog short h1 _ _ (inv_fresh prog) hp1
+  have i2 := reachable_inv prog short h2 _ _ (inv_fresh prog) hp2
+  obtain ⟨ir1, _⟩ := seek_inv prog short p1 r1 t f1 i1 hr1
+  obtain ⟨ir2, _⟩ := seek_inv prog short p2 r2 t f2 i2 hr2
+  obtain ⟨rr1, rc1⟩ := seek_reset p1 r1 t f1 hr1
+  obtain ⟨rr2, rc2⟩ := seek_reset p2 r2 t f2 hr2
+  obtain ⟨k1, a1⟩ := at_of_inv prog r1 ir1 rr1
+  obtain ⟨k2, a2⟩ := at_of_inv prog r2 ir2 rr2
+  refine ⟨k1, k2, by rw [a1.obs, rc1], by rw [a2.obs, rc2], ?_⟩
+  rcases Nat.le_total k1 k2 with hle | hle
+  · rw [Nat.min_eq_left hle, Nat.max_eq_right hle]
+    exact at_between prog r1 r2 t k1 k2 a1 a2 rc1 rc2 hle
+  · rw [Nat.min_eq_right hle, Nat.max_eq_left hle]
+    exact at_between prog r2 r1 t k2 k1 a2 a1 rc2 rc1 hle
+
+/-- at the exact start instant of a command a fresh player shows the state after the first command scheduled there -/
+theorem fresh_shows_first_command (prog : Bytes) (t fuel : Nat) (r0 : Player) (h : (Player.fresh prog).seek t fuel = .ok r0)
+    (j0 : Nat) (hmin : ∀ i, i < j0 → (chain prog i).next < t) (hinst : (chain prog j0).next = t) :
+    r0.exec = (chain prog (j0 + 1)).exec := fresh_at_instant prog t fuel r0 h j0 hmin hinst
+
 /-- the step budget does not matter: two budgets that both let the seek return give the same answers -/
 theorem budget_irrelevant (prog : Bytes) (short : FadesShort prog) (hist : List (Nat × Nat)) (t f1 f2 : Nat) (p r r' : Player)
     (hp : seekAll (Player.fresh prog) hist = .ok p) (hr : p.seek t f1 = .ok r) (hr' : p.seek t f2 = .ok r')
@@ -84,7 +134,7 @@ theorem next_event_sound (prog : Bytes) (short : FadesShort prog) (hist : List (
     t ≤ r.next ∧ ∀ j, liveUpTo prog j → ¬ (t < (chain prog j).next ∧ (chain prog j).next < r.next) := by
   have ip := reachable_inv prog short hist _ _ (inv_fresh prog) hp
   obtain ⟨ir, cr⟩ := seek_inv prog short p r t f ip hr
-  rcases ir with ⟨hc, hn, hrs⟩ | ⟨k, hk, hl, hs, hn, hc1, hc2, _⟩ | ⟨m, _, _, _, hd, _⟩
+  rcases ir with ⟨hc, hn, hrs⟩ | ⟨k, hk, hl, hs, hn, hc1, hc2, _, _⟩ | ⟨m, _, _, _, hd, _⟩
   · -- a seek always makes at least one step: the initial state is not a seek result
     exfalso
     rw [seek_eq] at hr
@@ -177,5 +227,23 @@ def colourAfter (hist : List (Nat × Nat)) (t : Nat) : Option Color :=
 answer inside the fade is the interpolated colour -/
 example : colourAfter [(700, 100), (200, 100), (1500, 100), (1000, 100), (300, 100)] 400 = some (102, 0, 0) ∧
     colourAfter [] 400 = some (102, 0, 0) := by decide +kernel
+
+/-- red for 1 s; then at the instant 1000 ms: pyro channel 0 on, a no-op, blue for 1 s -/
+def sampleInstant : Bytes := [4, 255, 0, 0, 50, 20, 0x81, 1, 4, 0, 0, 255, 50]
+
+def obsAfter (prog : Bytes) (hist : List (Nat × Nat)) (t : Nat) : Option (Color × Nat) :=
+  match seekAll (Player.fresh prog) hist with
+  | .ok p =>
+    match p.seek t 100 with
+    | .ok r => some (r.exec.color, r.exec.pyro)
+    | .error _ => none
+  | .error _ => none
+
+/-- the latitude is real: at the start instant 1000 ms a fresh player shows the first command scheduled there (pyro on,
+still red), a player that was asked the same instant before shows a further prefix (the no-op, then blue) -/
+example : obsAfter sampleInstant [] 1000 = some ((255, 0, 0), 1) ∧
+    obsAfter sampleInstant [(1000, 100)] 1000 = some ((255, 0, 0), 1) ∧
+    obsAfter sampleInstant [(1000, 100), (1000, 100)] 1000 = some ((0, 0, 255), 1) ∧
+    obsAfter sampleInstant [(1000, 100), (1000, 100), (300, 100)] 1000 = some ((255, 0, 0), 1) := by decide +kernel
 
 end Sb.C09
